@@ -70,7 +70,8 @@ def opOf? (j : Json) : Except String Op := do
       .ok (.stack incl)
   | "set" => .ok (.set (← getNat j "sid") (← getStr j "col") (← valueOf? (← field j "v")))
   | "map" => .ok (.map (← getNat j "sid") (← getStr j "col") (← fnOf? (← field j "f")))
-  | "loc_set" => .ok (.locSet (← getNat j "sid") (← getArr boolOf? j "mask") (← getArr strOf? j "cols") (← cellOf? (← field j "v")))
+  | "loc_set" => .ok (.locSet (← getNat j "sid") (← getArr boolOf? j "mask") (← boolOf? (fieldD j "single" (Json.bool false)))
+                        (← getArr strOf? j "cols") (← cellOf? (← field j "v")))
   | "loc_map" => .ok (.locMap (← getNat j "sid") (← getArr boolOf? j "mask") (← getArr strOf? j "cols") (← fnOf? (← field j "f")))
   | "attr_set" => .ok (.attrSet (← getNat j "sid") (← getStr j "name") (← valueOf? (← field j "v")))
   | "attr_map" => .ok (.attrMap (← getNat j "sid") (← getStr j "name") (← fnOf? (← field j "f")))
